@@ -1437,10 +1437,13 @@ deep_inventory (object_t * ob, int take_top)
 
 static int alist_cmp (svalue_t * p1, svalue_t * p2) {
 
+  /* a total order over the whole 64-bit value: the difference truncated to int is
+   * not transitive, and the heaps in alist_sort()/intersect_array() duplicate and
+   * lose entries when the order is not */
   if (p1->u.number != p2->u.number)
-    return (int)(p1->u.number - p2->u.number);
+    return (p1->u.number < p2->u.number) ? -1 : 1;
   if (p1->type != p2->type)
-    return (int)(p1->type - p2->type);
+    return (p1->type < p2->type) ? -1 : 1;
   return 0;
 }
 
